@@ -84,7 +84,12 @@ SpanningOKh(R, v, o, d, sp) ==
          /\ LET t1 == EdgeT0(v, MinRepIn(R, v, o, d), o, d) t2 == EdgeT0(v, MaxRepIn(R, v, o, d), o, d) IN
             \A a \in 1..2 :
                /\ AbsC(sp.o[a] * t1[2] - QS * (o[a] * t1[2] + t1[1] * d[a])) <= 3 * AbsC(t1[2])
-               /\ AbsC(sp.d[a] * t1[2] * t2[2] - QS * d[a] * (t2[1] * t1[2] - t1[1] * t2[2])) <= 3 * AbsC(t1[2] * t2[2])
+               \* direction = d (T2 - T1) with T2 - T1 = N / D0; evaluated by floor division (QS * N / D0 first, error below one quantum,
+               \* then times d[a]) so that no product leaves 31 bits on polylines of hundreds of edges crossed by oblique lines
+               /\ LET N == t2[1] * t1[2] - t1[1] * t2[2] D0 == t1[2] * t2[2]
+                      sg == Sgn(N) * Sgn(D0) An == AbsC(N) Ad == AbsC(D0)
+                      E1 == QS * (An \div Ad) + (QS * (An % Ad)) \div Ad IN
+                  AbsC(sp.d[a] - sg * d[a] * E1) <= 4 + AbsC(d[a])
 MaxIntersectionOKh(R, v, o, d, mx) ==
     IF R = {} THEN ~mx.some
     ELSE mx.some /\ TMatches(mx.tq, EdgeT0(v, MaxRepIn(R, v, o, d), o, d), 1)
